@@ -513,7 +513,7 @@ GMFP = {
             }
         }
     }""" % {'LO': LO},
-    'expect': {'loops': ['while']},
+    'expect': {'loops': ['while'], 'contains': ['get_moves(', 'new_board.move_piece(square_cords, mov, zobrist_hasher)', 'if is_check(&new_board, color)', 'take_away_castling_rights(', '(square_cords.0 as i8 - mov.0 as i8).abs() == 2', 'promote_pawn(', 'pawn_moves_en_passant(', 'if !is_check(&new_board, board.to_move)']},
 }
 
 P = ('C01', 'C02', 'C05', 'C13')
